@@ -825,10 +825,17 @@ func c03StageLoop(c *Ctx, docs [][]byte, names []string) error {
 		if len(doc) > 20000 {
 			nm = 1
 		}
+		allOpts := strings.HasPrefix(names[i], "c03-regress3:")
+		if allOpts {
+			nm = 16
+		}
 		for k := 0; k < nm; k++ {
 			mask := r.Intn(128)
 			if k == 0 && r.Chance(30) {
 				mask = 0
+			}
+			if allOpts {
+				mask = k<<2 | mask&0x43
 			}
 			stub := r.Chance(35)
 			o := c03OptsOf(mask)
